@@ -207,12 +207,39 @@ Theorem iter_delivers_suffix b c :
 Proof. reflexivity. Qed.
 
 (** ** Seek: accepted exactly inside [oldest retained, next to be written] *)
+(** consecutive ids cover every offset between the first and the last *)
+Lemma consec_covers m : consec m -> forall x o, hd_error m = Some x -> x <= o <= last m 0 -> In o m.
+Proof.
+  induction 1 as [|y|y m' Hc IH]; intros x o Hx Ho; simpl in *.
+  - discriminate.
+  - inversion Hx; subst x. left. lia.
+  - inversion Hx; subst x. destruct (Z.eq_dec y o) as [->|Hne]; [left; reflexivity|].
+    right. apply (IH (y + 1) o eq_refl).
+    change (last (y :: y + 1 :: m') 0) with (last (y + 1 :: m') 0) in Ho. lia.
+Qed.
+
+Lemma has_id_In b o : has_id b o = true <-> In o (ids b).
+Proof.
+  unfold has_id, ids. rewrite existsb_exists, in_map_iff. split.
+  - intros [r [Hr He]]. exists r. split; [apply Z.eqb_eq in He; exact He|exact Hr].
+  - intros [r [He Hr]]. exists r. split; [exact Hr|apply Z.eqb_eq; exact He].
+Qed.
+
 Theorem seek_accepts_iff b now o : inv b now -> b_exists b = true ->
   forall s, b_seq b = Some s ->
   (c_seek b o = SeekOk <-> low_bound b s <= o <= s + 1).
 Proof.
-  intros _ He s Hs. unfold c_seek. rewrite He, Hs. simpl.
+  intros [Hc Hl _ _] He s Hs. unfold c_seek. rewrite He, Hs. simpl. rewrite Hs in Hl. destruct Hl as [_ Hl].
   destruct (Z.leb_spec (low_bound b s) o), (Z.leb_spec o (s + 1)); simpl; split; intros Hx; try lia; try discriminate; auto.
+  (* in range: the event is there (ids are consecutive up to the sequence), or it is the next one *)
+  destruct (Z.eqb_spec o (s + 1)) as [->|Hne]; [rewrite orb_true_r; reflexivity|].
+  assert (Hin : has_id b o = true).
+  { apply has_id_In. unfold low_bound in *. destruct (b_rows b) as [|r rows] eqn:Hr.
+    - lia.
+    - apply (consec_covers (ids b) Hc (r_id r) o).
+      + unfold ids. rewrite Hr. reflexivity.
+      + rewrite Hl; [lia|discriminate]. }
+  rewrite Hin. reflexivity.
 Qed.
 
 Theorem seek_refused_when_purged_or_future b o s :
@@ -220,6 +247,16 @@ Theorem seek_refused_when_purged_or_future b o s :
 Proof.
   intros He Hs Ho. unfold c_seek. rewrite He, Hs. simpl.
   destruct (Z.leb_spec (low_bound b s) o), (Z.leb_spec o (s + 1)); simpl; try reflexivity; lia.
+Qed.
+
+(** whatever the clock did: an offset whose event is gone is refused, unless it is the next one *)
+Theorem seek_refused_when_event_gone b o s :
+  b_exists b = true -> b_seq b = Some s -> ~ In o (ids b) -> o <> s + 1 -> c_seek b o = SeekIndexError.
+Proof.
+  intros He Hs Hno Hne. unfold c_seek. rewrite He, Hs. simpl.
+  assert (Hh : has_id b o = false).
+  { destruct (has_id b o) eqn:E; [|reflexivity]. apply has_id_In in E. contradiction. }
+  rewrite Hh. destruct (Z.eqb_spec o (s + 1)); [contradiction|]. rewrite andb_false_r. reflexivity.
 Qed.
 
 Theorem seek_refused_on_fresh_db o : c_seek bus0 o = SeekIndexError.
